@@ -56,7 +56,7 @@ var c09GenCfg = mpclgen.Config{Arrays: true, Structs: true, Funcs: true, Loops: 
 func init() {
 	vrt.Register(&vrt.Prop{
 		ID: "C09", Level: "exploration",
-		Rule: "case = one program (generated, with multiplications wider than each threshold, divisions, constant operands and pass-through outputs; or a shipped lang/math test program) or a one-operator template `a op b` at one of 30 widths evaluated on all operand pairs (<= 8 bits) or on all edge pairs + 64 carry chains + 64 random pairs) compiled under 14 configurations {prune off/on} x {CircMultArrayTreshold 0,8,16,21,40,1000} x Yao plus {prune off/on} x GMW (with AssignLevels). " +
+		Rule: "case = one program (generated, with multiplications wider than each threshold, divisions, constant operands and pass-through outputs; or a shipped lang/math test program) a deep compare-and-subtract loop whose longest path exceeds 2^16 gates; or a one-operator template `a op b` at one of 30 widths evaluated on all operand pairs (<= 8 bits) or on all edge pairs + 64 carry chains + 64 random pairs) compiled under 14 configurations {prune off/on} x {CircMultArrayTreshold 0,8,16,21,40,1000} x Yao plus {prune off/on} x GMW (with AssignLevels). " +
 			"Oracle: the reference evaluation of every configuration's circuit is identical on the same input vectors (all inputs when <= 10 bits, else 32 boundary/random vectors) and, for generated programs, equal to the reference interpreter. Distinct = hash(program); non-trivial = at least two configurations produced different gate lists.",
 		NumCases: func(t string) int {
 			if t == "thorough" {
@@ -153,6 +153,26 @@ func runC09(cs *vrt.Case) {
 		f := files[(cs.Idx/10)%len(files)]
 		b, _ := os.ReadFile(f)
 		src, what = string(b), "testsuite "+strings.TrimPrefix(f, "/repo/")
+		if strings.Contains(src, " / ") || strings.Contains(src, " % ") {
+			// shipped division programs do not guard b == 0, and x/0 has
+			// no defined meaning (the Yao divider returns all ones, the
+			// GMW one something else): not a target difference in the
+			// sense of the property. Division is covered by the templates
+			// and the generated programs, which guard the divisor.
+			cs.Count("testsuite_division_programs_skipped", 1)
+			return
+		}
+	} else if cs.Idx%65 == 7 {
+		// a very deep circuit: 90-230 dependent rounds of compare and
+		// subtract on 128/256-bit values (longest path well over 2^16 gates)
+		w := vrt.Pick(r, []int{128, 256})
+		rounds := r.Range(90, 120)
+		if w == 128 {
+			rounds = r.Range(180, 230)
+		}
+		src = fmt.Sprintf("package main\nfunc main(a, b uint%d) uint%d {\n\tx := a\n\ty := b\n\tfor i := 0; i < %d; i++ {\n\t\tif x > y {\n\t\t\tx = x - y\n\t\t} else {\n\t\t\ty = y - x\n\t\t}\n\t}\n\treturn x + y\n}\n", w, w, rounds)
+		what = "deep"
+		cs.Count("deep_programs", 1)
 	} else if cs.Idx%10 == 8 || cs.Idx%10 == 3 {
 		// one operator at one width, small widths exhaustively: the
 		// builders the targets choose differ per width (ripple vs
@@ -221,6 +241,8 @@ func runC09(cs *vrt.Case) {
 		for _, v := range vvals {
 			vecs = append(vecs, flattenArgs(v))
 		}
+	} else if what == "deep" {
+		vecs, _ = allOrSampled(r, nin, 0, 16)
 	} else if what == "template" {
 		vecs = c09TemplateVectors(r, nin/2)
 	} else {
